@@ -9,7 +9,8 @@ def fiTun : Fi.Tun :=
     maxSample := DSGen.fi_MAX_SAMPLE_SIZE,
     epsNum := DSGen.fi_EPSILON_FACTOR_num, epsDen := DSGen.fi_EPSILON_FACTOR_den,
     lgMin := DSGen.fi_LG_MIN_MAP_SIZE,
-    goldNum := DSGen.fi_GOLDEN_RATIO_RECIPROCAL_num, goldDen := DSGen.fi_GOLDEN_RATIO_RECIPROCAL_den }
+    goldNum := DSGen.fi_GOLDEN_RATIO_RECIPROCAL_num, goldDen := DSGen.fi_GOLDEN_RATIO_RECIPROCAL_den,
+    driftLimit := DSGen.fi_DRIFT_LIMIT }
 
 def main (args : List String) : IO UInt32 := do
   match args with
